@@ -113,6 +113,13 @@ CLAIMED.update({
     },
 })
 
+CLAIMED.update({
+    "C02": {
+        "text": "Exhaustive table of 17 write sites (function composer: referenced object, desired-name collision, garbage collection; P&T composer: referenced object, removed template; XR connection secret; claim connection secret with both syncers; XRD to composite CRD and claim CRD; package to revision; active revision establishing an object; RBAC provider system / edit roles and binding; XRD roles) x target pre-state {absent, uncontrolled, controlled by the owner, controlled by a foreign UID} x 1..3 reconcile rounds on the real reconcilers over simkube: a foreign-controlled target stays byte-identical, the write log shows no effective write addressed to it, and the conflict surfaces as a returned error, a warning event or an unsynced condition (sites that never address the foreign object need not surface anything); absent / owned rows are controls proving the site does write.",
+        "technique": "exhaustive configuration-table enumeration on the real reconcilers with a write-log oracle",
+    },
+})
+
 PENDING_REASON = "not claimed yet: the check for this property is still being built (design in DESIGN.md section 3); no technique switch is intended"
 
 
